@@ -9,4 +9,5 @@ b = subprocess.run([sys.executable, os.path.join(VERIF, "build.py"), c["flavour"
 wd = os.path.join(VERIF, ".work", f"replay-{os.getpid()}"); os.makedirs(wd, exist_ok=True)
 env = dict(os.environ, ASAN_OPTIONS="exitcode=99", UBSAN_OPTIONS="print_stacktrace=1:halt_on_error=1:exitcode=99")
 r = subprocess.run([b, "--prop", pid, "--mode", "replay", "--replay", path, "--text", "--workdir", wd, "--no-exclude"], env=env)
+import shutil; shutil.rmtree(wd, ignore_errors=True)
 sys.exit(0 if r.returncode == 0 else 1)
